@@ -19,7 +19,7 @@ def csv_stream(rng, nfiles, streams, viol, samples):
     for k in range(nfiles):
         hp = (k % 5 == 0)
         unit = rng.choice(ALL_UNITS)
-        if hp:   # the high-precision class takes amounts >= ~1e-25 in their unit (known finding F13 below that)
+        if hp:   # the high-precision class takes amounts >= ~1e-25 in their unit (F13, fixed: below that nsimplify used to flush to zero)
             unit = rng.choice(["num", "Bq", "kBq", "mBq", "Ci", "dpm", "g", "mg", "kg", "ug", "mol", "mmol", "kmol"])
         pool = radio if unit in U.ACT else names
         nn = rng.randint(1, 30 if not hp else 6)
